@@ -408,6 +408,63 @@ def r6_label_vs_assign_lookahead(ctx: Ctx) -> None:
         raise AnalysisError("Scanner.peek: expected `self.input[self.pos + k]` with k defaulting to 0")
     tests = [n for n in walk_no_nested(li.node) if isinstance(n, ast.If) and "':'" in unparse(n.test) and "'='" in unparse(n.test)]
     if len(tests) != 1:
+        # any other spelling of the look-ahead (startswith at an offset, indexing the input): decide it over the finite abstraction of the next
+        # three characters (each `:`, `=` or something else): the label arm must be taken exactly when c0 == ':' and c1 != '='
+        cands = [n for n in walk_no_nested(li.node) if isinstance(n, ast.If) and "':" in unparse(n.test) and any("LABEL" in unparse(x) for b in (n.body + n.orelse) for x in ast.walk(b))]
+        if len(cands) == 1:
+            import itertools
+
+            label_in_body = any("TokenType.LABEL" in unparse(x) for b in cands[0].body for x in ast.walk(b) if isinstance(x, ast.Call))
+
+            class _Undecided(Exception):
+                pass
+
+            def off(e: ast.AST) -> int:
+                t = unparse(e)
+                if t == "s.pos":
+                    return 0
+                if isinstance(e, ast.BinOp) and isinstance(e.op, ast.Add) and unparse(e.left) == "s.pos" and isinstance(e.right, ast.Constant) and type(e.right.value) is int:
+                    return e.right.value
+                raise _Undecided
+
+            def ev(e: ast.AST, chars: tuple[str, ...]) -> bool:
+                if isinstance(e, ast.BoolOp):
+                    vals = [ev(v, chars) for v in e.values]
+                    return all(vals) if isinstance(e.op, ast.And) else any(vals)
+                if isinstance(e, ast.UnaryOp) and isinstance(e.op, ast.Not):
+                    return not ev(e.operand, chars)
+                if isinstance(e, ast.Compare) and len(e.ops) == 1 and isinstance(e.ops[0], (ast.Eq, ast.NotEq)) and isinstance(e.comparators[0], ast.Constant) \
+                        and isinstance(e.comparators[0].value, str) and len(e.comparators[0].value) == 1:
+                    l = e.left
+                    k = None
+                    if isinstance(l, ast.Call) and call_name(l) == "s.peek":
+                        k = 0 if not l.args else (l.args[0].value if isinstance(l.args[0], ast.Constant) else None)
+                    elif isinstance(l, ast.Subscript) and unparse(l.value) == "s.input":
+                        k = off(l.slice)
+                    if k is None or not (0 <= k < len(chars)):
+                        raise _Undecided
+                    same = chars[k] == e.comparators[0].value
+                    return same if isinstance(e.ops[0], ast.Eq) else not same
+                if isinstance(e, ast.Call) and call_name(e) == "s.input.startswith" and e.args and isinstance(e.args[0], ast.Constant) and isinstance(e.args[0].value, str):
+                    k = off(e.args[1]) if len(e.args) > 1 else None
+                    if k is None or k + len(e.args[0].value) > len(chars):
+                        raise _Undecided
+                    return all(chars[k + i] == ch for i, ch in enumerate(e.args[0].value))
+                raise _Undecided
+
+            try:
+                wrong = []
+                for chars in itertools.product(":=x", repeat=4):
+                    taken = ev(cands[0].test, chars)
+                    is_label = taken if label_in_body else not taken
+                    if is_label != (chars[0] == ":" and chars[1] != "="):
+                        wrong.append("".join(chars))
+                ctx.check(not wrong, "lex_identifier:label-lookahead",
+                          f"a label is `:` at the cursor not followed directly by `=`; with the next characters {wrong[:4]} the test `{unparse(cands[0].test)[:70]}` decides otherwise")
+                return
+            except _Undecided:
+                pass
+    if len(tests) != 1:
         # the same decision taken by stepping over the colon: `s.accept(':') and s.peek() != '='` (then the cursor is put back)
         alt = [n for n in walk_no_nested(li.node) if isinstance(n, ast.BoolOp) and isinstance(n.op, ast.And) and [unparse(v) for v in n.values] == ["s.accept(':')", "s.peek() != '='"]]
         if len(alt) == 1:
